@@ -86,6 +86,10 @@ func main() {
 		cmdHookTrace(os.Args[2:])
 	case "corpus2scen":
 		cmdCorpus2Scen(os.Args[2:])
+	case "progwin":
+		cmdProgWin(os.Args[2:])
+	case "longtwin":
+		cmdLongTwin(os.Args[2:])
 	case "play":
 		cmdPlay(os.Args[2:])
 	case "sweep16":
